@@ -104,7 +104,8 @@ def run(res, tier, seed, shard, nshards):
             else:
                 multi_case(res, W, rng, tier)
 
-    H.in_sim(scen, watchdog=3000)
+    with H.ambient((seed, shard, "C02"), res):
+        H.in_sim(scen, watchdog=3000)
 
 
 def header_case(res, W, rng, c, nseg):
